@@ -34,7 +34,7 @@ func (e *Engine) newCtx(h *Harness, prefix []int, solver *Solver, concrete *Mode
 		eng: e, h: h, solver: solver, prefix: prefix, concrete: concrete,
 		varNames: map[string]int{}, maxSteps: h.maxSteps,
 		globals: map[*ssa.Global]*value{}, pkgInit: map[*ssa.Package]bool{}, onceDone: map[*value]bool{},
-		reached: map[string]bool{}, ufApps: map[string][]ufApp{}, injective: map[string]bool{}, hashBuf: map[*value][]*Term{},
+		reached: map[string]bool{}, ufApps: map[string][]ufApp{}, injective: map[string]bool{}, hashBuf: map[*value][]*Term{}, frozen: map[*value]bool{},
 		cover: map[*ssa.Function]bool{},
 		trace: os.Getenv("GOSYM_TRACE") != "", trace2: os.Getenv("GOSYM_TRACE") == "2",
 		noMerge: os.Getenv("GOSYM_NOMERGE") != "",
@@ -157,6 +157,7 @@ type Explorer struct {
 	started  map[string]time.Time
 	solverStats struct {
 		queries, sat, unsat, unknown, errors int
+		fallback, fallbackSolved int
 		time time.Duration
 	}
 	seed int64
@@ -198,6 +199,8 @@ func (x *Explorer) worker() {
 			x.solverStats.unsat += solver.NUnsat
 			x.solverStats.unknown += solver.NUnknown
 			x.solverStats.errors += solver.errors
+			x.solverStats.fallback += solver.NFallback
+			x.solverStats.fallbackSolved += solver.NFallbackSolved
 			x.solverStats.time += solver.SolveTime
 			x.mu.Unlock()
 			solver.Close()
